@@ -14,25 +14,27 @@ pub struct Viol {
     pub prop: &'static str,
     /// further properties whose statement covers the same observation
     pub more: &'static [&'static str],
+    /// properties whose own rule was found violated at the same moment
+    pub extra: Vec<&'static str>,
     pub msg: String,
 }
 
 impl Viol {
     pub fn hits(&self, prop: &str) -> bool {
-        self.prop == prop || self.more.contains(&prop)
+        self.prop == prop || self.more.contains(&prop) || self.extra.contains(&prop)
     }
 }
 pub type Res<T> = Result<T, Viol>;
 
 #[macro_export]
 macro_rules! viol {
-    ($p:expr, $($a:tt)*) => { return Err($crate::mon::Viol { prop: $p, more: &[], msg: format!($($a)*) }) };
+    ($p:expr, $($a:tt)*) => { return Err($crate::mon::Viol { extra: Vec::new(), prop: $p, more: &[], msg: format!($($a)*) }) };
 }
 
 /// Violation attributed to the op's class property and the further properties covering it.
 #[macro_export]
 macro_rules! viol_op {
-    ($code:expr, $($a:tt)*) => { return Err($crate::mon::Viol { prop: $crate::mon::class_prop($code), more: $crate::mon::class_more($code), msg: format!($($a)*) }) };
+    ($code:expr, $($a:tt)*) => { return Err($crate::mon::Viol { extra: Vec::new(), prop: $crate::mon::class_prop($code), more: $crate::mon::class_more($code), msg: format!($($a)*) }) };
 }
 
 /// A rule that does not affect the map/model agreement: fatal for the history only when it is
@@ -309,7 +311,7 @@ impl<K: El, V: El> Mon<K, V> {
 
     pub fn soft(&mut self, prop: &'static str, msg: String) -> Option<Viol> {
         if self.focus.is_empty() || self.focus == prop {
-            return Some(Viol { prop, more: &[], msg });
+            return Some(Viol { extra: Vec::new(), prop, more: &[], msg });
         }
         let e = self.stats.also.entry(prop).or_insert((0, String::new()));
         e.0 += 1;
@@ -407,15 +409,27 @@ impl<K: El, V: El> Mon<K, V> {
             viol!(p, "{m} during {}", op.encode());
         }
         if out.act != out.exp {
-            viol_op!(
-                op.code,
-                "observation mismatch for {}: got {:?}, model says {:?}",
-                op.encode(),
-                out.act,
-                out.exp
-            );
+            let mut v = Viol {
+                extra: Vec::new(),
+                prop: class_prop(op.code),
+                more: class_more(op.code),
+                msg: format!("observation mismatch for {}: got {:?}, model says {:?}", op.encode(), out.act, out.exp),
+            };
+            if self.conserve && ledger_live() != self.live_base + 2 * self.model.len() {
+                v.extra.push("C06");
+                v.msg = format!("{} [ledger: {} live objects, expected {}]", v.msg, ledger_live(), self.live_base + 2 * self.model.len());
+            }
+            return Err(v);
         }
-        self.post(op, &st0, loc0, &out)?;
+        if let Err(mut v) = self.post(op, &st0, loc0, &out) {
+            // a hard violation ends the history before the ledger rule is evaluated: evaluate it
+            // now, so that premature / missing drops are still attributed to C06
+            if self.conserve && v.prop != "C06" && v.prop != HARNESS && ledger_live() != self.live_base + 2 * self.model.len() {
+                v.extra.push("C06");
+                v.msg = format!("{} [ledger: {} live objects, expected {}]", v.msg, ledger_live(), self.live_base + 2 * self.model.len());
+            }
+            return Err(v);
+        }
         if let Some(t) = &mut self.transcript {
             let line = format!(
                 "{} => {:?} len={} cap={} split={}",
@@ -486,6 +500,7 @@ impl<K: El, V: El> Mon<K, V> {
                 // Iteration clones this cursor, so the call also left the observable contents
                 // wrong: the op's own property is violated as well.
                 return Err(Viol {
+                    extra: Vec::new(),
                     prop: "C05",
                     more: cursor_more(op.code),
                     msg: format!(
@@ -512,6 +527,7 @@ impl<K: El, V: El> Mon<K, V> {
                     full.sort_unstable();
                     if cur != full {
                         return Err(Viol {
+                            extra: Vec::new(),
                             prop: "C05",
                             more: cursor_more(op.code),
                             msg: format!("cached iterator would visit buckets {:?} but the old table's full buckets are {:?} after {}", cur, full, enc()),
@@ -818,7 +834,7 @@ impl<K: El, V: El> Mon<K, V> {
             }
         });
         if let Err(p) = r {
-            return Err(Viol { prop, more, msg: format!("panic while iterating after {ctx}: {p}") });
+            return Err(Viol { extra: Vec::new(), prop, more, msg: format!("panic while iterating after {ctx}: {p}") });
         }
         if let Some((p, m)) = take_violations().into_iter().next() {
             viol!(p, "{m} while iterating after {ctx}");
@@ -827,7 +843,7 @@ impl<K: El, V: El> Mon<K, V> {
         let want: Vec<(u64, u64, u64, u64)> = self.model.iter().map(|(k, s)| (*k, s.kid, s.pay, s.vid)).collect();
         if got != want {
             let diff = first_diff(&got, &want);
-            return Err(Viol { prop, more, msg: format!("contents differ from the model after {ctx}: {diff} (map has {} entries, model {})", got.len(), want.len()) });
+            return Err(Viol { extra: Vec::new(), prop, more, msg: format!("contents differ from the model after {ctx}: {diff} (map has {} entries, model {})", got.len(), want.len()) });
         }
         Ok(())
     }
